@@ -280,6 +280,7 @@ func (p *serverPeer) Read(b []byte) (int, error) {
 }
 
 type pairResult struct {
+	srvWriteFailed bool
 	offersChanged  string
 	cliErr, srvErr error
 	cliHS, srvHS   ws.Handshake
@@ -287,12 +288,19 @@ type pairResult struct {
 }
 
 func runPair(c config, reqChunks, respChunks []int) pairResult {
+	return runPairF(c, reqChunks, respChunks, -1)
+}
+
+// runPairF: srvFailAt >= 0 fails that write of the server (server-to-client direction).
+func runPairF(c config, reqChunks, respChunks []int, srvFailAt int) pairResult {
 	var r pairResult
 	rand.Seed(c.Seed)
 	peer := &serverPeer{chunks: respChunks}
 	peer.serve = func(req []byte) []byte {
 		rec := tx.NewRec()
+		rec.FailAt = srvFailAt
 		r.srvHS, r.srvErr = c.upgrader().Upgrade(tx.RW{Reader: tx.NewSrc(req, reqChunks), Writer: rec})
+		r.srvWriteFailed = rec.Failed
 		return rec.Bytes()
 	}
 	u, _ := url.Parse("ws://example.com" + c.Path)
@@ -315,8 +323,15 @@ func TestPeersAgree(t *testing.T) {
 	hx.Check(t, 6, func(t *rapid.T) {
 		c := drawConfig(t)
 		reqChunks, respChunks := gen.Chunks(t, "reqchunks"), gen.Chunks(t, "respchunks")
-		r := runPair(c, reqChunks, respChunks)
+		failAt := -1
+		if rapid.IntRange(0, 5).Draw(t, "srvWriteFault") == 0 {
+			failAt = rapid.IntRange(0, 2).Draw(t, "srvFailAt")
+		}
+		r := runPairF(c, reqChunks, respChunks, failAt)
 		hx.Eval()
+		if r.srvWriteFailed {
+			hx.Class("pair/server-write-fault")
+		}
 		small := c.SRB > 0 && c.SRB < 300 || c.CRB > 0 && c.CRB < 300 || gen.SmallChunk(reqChunks) || gen.SmallChunk(respChunks)
 		offered := len(c.Protocols) > 0 || len(c.Offers) > 0
 		hx.Class(fmt.Sprintf("pair/ok=%v/ext=%s/offered=%v", r.cliErr == nil && r.srvErr == nil, c.ExtMode, offered))
